@@ -56,10 +56,28 @@ impl BufRead for BodyReader {
 fn is_chunked(headers: &HeaderMap) -> bool {
     // The value is looked at as bytes: a field line that carries obs-text somewhere (a quoted
     // parameter of another coding) still names its codings.
-    headers.get_all(TRANSFER_ENCODING).into_iter().any(|val| {
-        val.as_bytes()
-            .split(|&b| b == b',')
-            .any(|s| s.trim_ascii().eq_ignore_ascii_case(b"chunked"))
+    headers
+        .get_all(TRANSFER_ENCODING)
+        .into_iter()
+        .any(|val| list_items(val.as_bytes()).any(|s| s.trim_ascii().eq_ignore_ascii_case(b"chunked")))
+}
+
+/// The elements of a comma-separated list field value. A comma inside a quoted string (the value of
+/// a parameter) is part of that string, not a separator.
+fn list_items(value: &[u8]) -> impl Iterator<Item = &[u8]> {
+    let (mut quoted, mut escaped) = (false, false);
+    value.split(move |&b| {
+        if escaped {
+            escaped = false;
+            return false;
+        }
+        match b {
+            b'\\' if quoted => escaped = true,
+            b'"' => quoted = !quoted,
+            b',' => return !quoted,
+            _ => {}
+        }
+        false
     })
 }
 
